@@ -59,6 +59,10 @@ class _Cexptrk_Potential_Function(object):
           raise Potential_Form_Exception("mathematical expression couldn't be parsed {}".format(pe))
       try:
         retval = self._expression()
+        if retval != retval:
+          # The expression library reports an argument outside the domain of one of its functions
+          # (sqrt or log of a negative number, 0/0) by returning not-a-number, never by raising.
+          raise Potential_Form_Exception("evaluates to not-a-number for arguments ({})".format(", ".join([str(a) for a in args])))
       finally:
         for (pn, v) in zip(parameter_names, saved):
           self._local_symbol_table.variables[pn] = v
